@@ -80,6 +80,8 @@ struct UpstreamStub {
 
 struct UpReq {
     fut: Option<Pin<Box<dyn Future<Output = Result<Message<Bytes>, Error>> + Send + Sync>>>,
+    /// What the request came to, once it has: asking again gives the same.
+    done: Option<Result<Message<Bytes>, Error>>,
 }
 
 impl std::fmt::Debug for UpReq {
@@ -89,9 +91,31 @@ impl std::fmt::Debug for UpReq {
 }
 
 impl GetResponse for UpReq {
+    // (Cancel safe, as the trait documents it: a dropped `get_response()`
+    // future loses nothing, the next one carries on where it stopped.)
     fn get_response(&mut self) -> Pin<Box<dyn Future<Output = Result<Message<Bytes>, Error>> + Send + Sync + '_>> {
-        let fut = self.fut.take().expect("get_response called twice on the stub");
-        Box::pin(fut)
+        Box::pin(UpGet(self))
+    }
+}
+
+struct UpGet<'a>(&'a mut UpReq);
+
+impl Future for UpGet<'_> {
+    type Output = Result<Message<Bytes>, Error>;
+    fn poll(mut self: Pin<&mut Self>, cx: &mut std::task::Context<'_>) -> std::task::Poll<Self::Output> {
+        let req = &mut *self.0;
+        if let Some(r) = &req.done {
+            return std::task::Poll::Ready(r.clone());
+        }
+        let fut = req.fut.as_mut().expect("request future");
+        match fut.as_mut().poll(cx) {
+            std::task::Poll::Ready(r) => {
+                req.done = Some(r.clone());
+                req.fut = None;
+                std::task::Poll::Ready(r)
+            }
+            std::task::Poll::Pending => std::task::Poll::Pending,
+        }
     }
 }
 
@@ -147,6 +171,7 @@ impl SendRequest<RequestMessage<Vec<u8>>> for UpstreamStub {
         };
         Box::new(UpReq {
             fut: Some(Box::pin(SyncFut(Box::pin(fut)))),
+            done: None,
         })
     }
 }
@@ -1005,7 +1030,27 @@ async fn run(_tier: Tier) {
                 }
                 let t_invoke = sim::now_ns();
                 ev!("q k={} {} {} {} {:?} more={:?} invoke", k, qname, qclass, qtype, flags, more);
-                let res = gr.get_response().await;
+                // The caller may drop a pending get_response() (a timeout
+                // around it) and ask again on the same request object - the
+                // trait documents that as cancel safe: same answer.
+                let res = if sim::chance("q.cancel_get_response", 1, 6) {
+                    let mut tries = 0;
+                    loop {
+                        let patience = Duration::from_millis(sim::draw("q.cancel_after_ms", 45));
+                        match tokio::time::timeout(patience, gr.get_response()).await {
+                            Ok(r) => break r,
+                            Err(_) => {
+                                sim::stat("fault.get_response_cancelled");
+                                tries += 1;
+                                if tries >= 3 {
+                                    break gr.get_response().await;
+                                }
+                            }
+                        }
+                    }
+                } else {
+                    gr.get_response().await
+                };
                 sim::sync_clock();
                 let t_return = sim::now_ns();
                 let result = match res {
